@@ -7,6 +7,7 @@
 #include <stdlib.h>
 #include <string.h>
 #include <pthread.h>
+#include <signal.h>
 #include <semaphore.h>
 #include <unistd.h>
 #include <time.h>
@@ -119,7 +120,7 @@ static int exec_child(const int *pre, int plen, result *res) {
 	int fd[2]; if (pipe(fd)) return 0; fflush(stdout);
 	pid_t p = fork();
 	if (!p) {
-		close(fd[0]); prefix = pre; prefix_len = plen; run_exec();
+		close(fd[0]); prefix = pre; prefix_len = plen; alarm(120); run_exec();
 		result r; memset(&r, 0, sizeof r); r.n = n_points; memcpy(r.out, outhash, sizeof outhash); memcpy(r.anch, anchors_ok, sizeof anchors_ok); for (int i = 0; i < MAXT; i++) r.kinds[i] = used_kinds[i];
 		wr(fd[1], &r, sizeof r); wr(fd[1], chosen, sizeof(int) * n_points); wr(fd[1], enabled_mask, sizeof(int) * n_points); wr(fd[1], running_before, sizeof(int) * n_points);
 		_exit(0);
@@ -148,6 +149,7 @@ static void explore(int *pre, int plen) {
 	result *res = malloc(sizeof *res);
 	memset(res, 0, sizeof *res);
 	int rc = exec_child(pre, plen, res);
+	if (rc == -(100 + SIGALRM)) { viols++; printf("{\"t\":\"viol\",\"sig\":\"sched:hang-or-deadlock\",\"detail\":\"a schedule of mix %s did not finish within 120 s\",\"mix\":\"%s\",\"preemptions\":%d,\"points\":0,\"schedule\":[]}\n", mixname, mixname, bound); free(res); return; }
 	if (rc != 1) { printf("{\"t\":\"internal\",\"what\":\"schedule child failed (%d) in mix %s\"}\n", rc, mixname); free(res); return; }
 	execs++;
 	uint64_t oh = fnv(res->out, sizeof res->out); int f = 0; for (int i = 0; i < nseen; i++) if (seen_out[i] == oh) f = 1; if (!f && nseen < 4096) seen_out[nseen++] = oh;
